@@ -322,3 +322,198 @@ def real_encode(pieces):
             break
         out += d
     return out
+
+
+# ------------------------------------------------------------------------
+# The real deferring_http_channel with a socket that accepts a scripted number
+# of bytes per send() ("any network fragmentation" on the sending side).
+
+class ScriptedSocket(object):
+    """Stands where the connected socket stands.  send() accepts at most
+    `next_k` bytes (0: EWOULDBLOCK); recv() hands over the request bytes."""
+
+    _fd = [900000]
+
+    def __init__(self):
+        ScriptedSocket._fd[0] += 1
+        self.fd = ScriptedSocket._fd[0]
+        self.inbox = b''
+        self.sent = []
+        self.next_k = 1 << 30
+        self.send_calls = 0
+        self.closed = False
+
+    def setblocking(self, flag):
+        pass
+
+    def fileno(self):
+        return self.fd
+
+    def getpeername(self):
+        return ('127.0.0.1', 54321)
+
+    def send(self, data):
+        import errno
+        self.send_calls += 1
+        n = min(self.next_k, len(data))
+        if n <= 0:
+            raise socket.error(errno.EWOULDBLOCK, 'would block')
+        self.sent.append(bytes(data[:n]))
+        return n
+
+    def recv(self, n):
+        import errno
+        if not self.inbox:
+            raise socket.error(errno.EWOULDBLOCK, 'would block')
+        d, self.inbox = self.inbox[:n], self.inbox[n:]
+        return d
+
+    def close(self):
+        self.closed = True
+
+
+class _StubServer(object):
+    """What http_channel needs of its server: counters, logger, handler list."""
+
+    def __init__(self, handlers, logger):
+        from supervisor.medusa.counter import counter
+        self.handlers = handlers
+        self.total_requests = counter()
+        self.exceptions = counter()
+        self.bytes_out = counter()
+        self.bytes_in = counter()
+        self.logger = logger
+        self.server_name = 'test'
+        self.port = 0
+        self.SERVER_IDENT = 'test'
+
+    def log_info(self, message, type='info'):
+        self.logger.lines.append((type, message))
+
+
+class _Log(object):
+    def __init__(self):
+        self.lines = []
+
+    def log(self, *a):
+        self.lines.append(a)
+
+
+class ChannelBed(object):
+    """Real logtail_handler / mainlogtail_handler, real deferring_http_request.done(),
+    real deferring_http_channel (found_terminator, push_with_producer,
+    initiate_send, refill_buffer, writable); only the socket is scripted."""
+
+    def __init__(self, workdir, c17mod):
+        from supervisor import http as shttp
+        self.shttp = shttp
+        self.workdir = workdir
+        os.makedirs(workdir, exist_ok=True)
+        self.clock = FakeClock()
+        self.saved_time = shttp.time
+        shttp.time = self.clock
+        self.logger = c17mod.Logger()
+        self.plog = os.path.join(workdir, 'p.log')
+        self.mainlog = os.path.join(workdir, 'main.log')
+        for pth in (self.plog, self.mainlog):
+            with open(pth, 'wb'):
+                pass
+        proc = c17mod.Proc('p', self.plog, [])
+        groups = {'g': c17mod.Group('g', {'p': proc})}
+        opts = c17mod.Options(workdir, self.logger)
+        self.sup = c17mod.Supervisord(opts, groups)
+        self.handlers = [shttp.logtail_handler(self.sup), shttp.mainlogtail_handler(self.sup)]
+
+    def close(self):
+        self.shttp.time = self.saved_time
+
+    def run(self, url, logpath, initial, schedule, drain=True):
+        """schedule: list of ('fs', [file ops]) | ('pass', k) | ('wait', k) (a write
+        event offered without letting the producer delay elapse).
+        Returns dict(states0, ops (as executed), wire, left, obs, error)."""
+        for f in os.listdir(os.path.dirname(logpath)):
+            if f.startswith(os.path.basename(logpath) + '.'):
+                os.remove(os.path.join(os.path.dirname(logpath), f))
+        files = Files(logpath)
+        files.create(initial)
+        sock = ScriptedSocket()
+        server = _StubServer(self.handlers, _Log())
+        ops = []
+        error = None
+        ch = self.shttp.deferring_http_channel(server, sock, ('127.0.0.1', 54321))
+        try:
+            state0 = files.state()
+            first = schedule[0][1] if schedule and schedule[0][0] == 'pass' else 1 << 30
+            rest = schedule[1:] if schedule and schedule[0][0] == 'pass' else schedule
+            sock.inbox = ('GET %s HTTP/1.1\r\n\r\n' % url).encode()
+            sock.next_k = first
+            ch.handle_read_event()            # request -> handler -> done() -> first initiate_send
+            ops.append(('pass', first))
+            todo = list(rest)
+            quiet = 0
+            guard = 0
+            while todo or (drain and quiet < 2):
+                guard += 1
+                if guard > 5000:
+                    error = 'channel never went idle'
+                    break
+                if todo:
+                    op = todo.pop(0)
+                else:
+                    op = ('pass', 1 << 30)
+                if op[0] == 'fs':
+                    for fop in op[1]:
+                        files.apply(fop)
+                    ops.append(('fs', files.state(), op[1]))
+                    continue
+                self.clock.advance(0.25 if op[0] == 'pass' else 0.001)
+                if ch.socket is None or sock.closed or ch not in ch._map.values():
+                    error = 'channel closed'
+                    break
+                if not ch.writable():
+                    continue
+                before = sock.send_calls
+                sock.next_k = op[1]
+                try:
+                    ch.handle_write_event()
+                except Exception as e:        # asyncore would call handle_error(): channel closed
+                    error = '%s: %s' % (type(e).__name__, e)
+                    break
+                ops.append(('pass', op[1]))
+                if not todo:
+                    quiet = quiet + 1 if (sock.send_calls == before and not ch.ac_out_buffer) else 0
+            wire = b''.join(sock.sent)
+            left = bytes(ch.ac_out_buffer)
+            obs = ch.ac_out_buffer_size
+            fifo_len = len(ch.producer_fifo)
+        finally:
+            try:
+                ch.del_channel()
+            except Exception:
+                pass
+            files.close()
+        return {'state0': state0, 'ops': ops, 'wire': wire, 'left': left, 'obs': obs, 'error': error,
+                'still_open': fifo_len == 1 and not sock.closed}
+
+
+def strict_dechunk(body):
+    """-> (data of complete well-formed chunks, error or None).  A stream that
+    simply stops at a chunk boundary is fine (the tail stays open)."""
+    out = []
+    pos = 0
+    while pos < len(body):
+        eol = body.find(b'\r\n', pos)
+        if eol == -1:
+            return b''.join(out), 'chunk-size line not terminated at offset %d' % pos
+        line = body[pos:eol]
+        if not line or line.strip(b'0123456789abcdefABCDEF'):
+            return b''.join(out), 'malformed chunk-size line %r at offset %d' % (line[:40], pos)
+        size = int(line, 16)
+        data = body[eol + 2:eol + 2 + size]
+        if len(data) < size:
+            return b''.join(out), 'short final chunk (declared %d, present %d) at offset %d' % (size, len(data), pos)
+        if body[eol + 2 + size:eol + 4 + size] != b'\r\n':
+            return b''.join(out) + data, 'chunk of declared size %d at offset %d is not followed by CRLF' % (size, pos)
+        out.append(data)
+        pos = eol + 4 + size
+    return b''.join(out), None
